@@ -104,6 +104,9 @@ def ensure_gen(force=False):
         if rc != 0:
             raise InfraError('emitter failed: ' + e[-2000:])
         open(CACHE + '/emit.log', 'w').write(o)
+        rc, o2, e2 = sh(['python3', ROOT + '/tools/gen_serde.py', CACHE + '/expanded.rs', GEN + '/structs.json', GEN + '/Gen_Serde.v'], 120)
+        if rc != 0:
+            raise InfraError('serde table extraction failed: ' + e2[-1500:])
         mkproject()
         open(stamp, 'w').write(h)
         log('generated model from /repo (%s) in %.1fs' % (h, time.time() - t))
